@@ -4,5 +4,7 @@
 def units(prop, tier):
     if prop not in ('C05', 'C06'):
         return []
+    import os
     from vf.cvc_alg.units import all_units
-    return list(all_units(prop))
+    root = os.environ.get('VERIF_REPO', '/repo')
+    return list(all_units(prop, src_dir=os.environ.get('VERIF_REPO_SRC') or os.path.join(root, 'src')))
